@@ -446,6 +446,30 @@ func (c *cm3) Define(api frontend.API) error {
 	return nil
 }
 
+// three commitments, the last one depending on the second only (not on a prefix of the earlier commitments)
+type cm3b struct {
+	X, W, V frontend.Variable
+	P1      frontend.Variable `gnark:",public"`
+}
+
+func (c *cm3b) Define(api frontend.API) error {
+	api.AssertIsEqual(api.Mul(c.X, c.X), c.P1)
+	a, err := api.(frontend.Committer).Commit(c.X)
+	if err != nil {
+		return err
+	}
+	b, err := api.(frontend.Committer).Commit(c.W, c.P1)
+	if err != nil {
+		return err
+	}
+	d, err := api.(frontend.Committer).Commit(b, c.V)
+	if err != nil {
+		return err
+	}
+	api.AssertIsDifferent(api.Add(a, d), c.V)
+	return nil
+}
+
 func g16Specs() []g16Spec {
 	return []g16Spec{
 		{"cubic", func() frontend.Circuit { return &cubic{} }, func(k int) frontend.Circuit {
@@ -465,6 +489,10 @@ func g16Specs() []g16Spec {
 		{"commit3", func() frontend.Circuit { return &cm3{} }, func(k int) frontend.Circuit {
 			x := int64(2 + k)
 			return &cm3{X: x, W: 5 + int64(k), V: 11 + int64(k), P1: x * x, P2: 6 + int64(k)}
+		}},
+		{"commit3-second-only", func() frontend.Circuit { return &cm3b{} }, func(k int) frontend.Circuit {
+			x := int64(2 + k)
+			return &cm3b{X: x, W: 5 + int64(k), V: 11 + int64(k), P1: x * x}
 		}},
 		{"public-only", func() frontend.Circuit { return &pubOnly{} }, func(k int) frontend.Circuit { y := int64(2 + k); return &pubOnly{Y: y, Z: y * y, S: 7} }},
 		{"hinty", func() frontend.Circuit { return &hintyCircuit{} }, func(k int) frontend.Circuit {
